@@ -277,6 +277,15 @@ Step ==
 Next == Step /\ m' = MonSteps(m, evs')
 Spec == Init /\ [][Next]_vars
 
+(* liveness: if the environment keeps resolving what is pending (a connect attempt succeeds or fails, a message in flight is delivered or lost, a
+   pending timer fires), every call returns - it never waits forever (C09's "an exchange ends", at the design level).  The user's own actions (new
+   calls, cancellation, clock jumps) and the peer closing the connection are not required to happen. *)
+Progress == \/ ConnOK \/ ConnFail("refuse") \/ ConnFail("hang")
+            \/ \E i \in 1..MaxFly : Deliver(i)
+            \/ \E i \in 1..MaxFly : Lose(i)
+            \/ TimerRead \/ TimerAuth \/ TimerSleep
+FairSpec == Spec /\ WF_vars(Progress /\ m' = MonSteps(m, evs'))
+EveryCallReturns == (pc # "Idle") ~> (pc = "Idle")
 NoViolation == m.bad = {}
 TypeOK == /\ pc \in {"Idle", "Connecting", "AuthWait", "AuthSleep", "ReadWait"}
           /\ creds \in {"none", "good"} /\ Len(fly) <= MaxFly
